@@ -57,43 +57,122 @@ ASSUMPTIONS = [
     'single-threaded use',
 ]
 
-MEM_SCRIPT = r'''
-import gc, json, sys, time, tracemalloc
-n = int(sys.argv[1])
+MEM_SCRIPT = r"""
+import gc, json, math, sys, time, tracemalloc
+job = json.loads(sys.stdin.read())
 from xlcalculator import ModelCompiler, Evaluator
 from xlcalculator import evaluator as evmod
-d = {'Sheet1!A1': 1, 'Sheet1!A2': 2, 'Sheet1!B1': '=A1+1', 'Sheet1!C1': '=B1*2+A2',
-     'Sheet1!D1': '=SUM(A1:A2)+C1', 'Sheet2!A1': '=Sheet1!C1-Sheet1!A1', 'Sheet1!E1': '=IF(A1<2,B1,D1)'}
-cells = ['Sheet1!C1', 'Sheet2!A1', 'Sheet1!A1', 'Sheet1!D1', 'Sheet1!B1', 'Sheet1!E1', 'Sheet1!Z9']
-model = ModelCompiler().read_and_parse_dict(d)
-ev = Evaluator(model)
-vals = {}
-def run(k):
-    for i in range(k):
-        c = cells[i % len(cells)]
-        v = ev.evaluate(c)
-        vals.setdefault(c, set()).add(repr(v))
+
 def measure():
     gc.collect()
     objs = gc.get_objects()
     ctx = sum(1 for o in objs if isinstance(o, evmod.EvaluatorContext))
-    return {'contexts': ctx, 'objects': len(objs), 'traced': tracemalloc.get_traced_memory()[0]}
-t0 = time.time()
-run(700)
+    n = len(objs)
+    del objs
+    return {'contexts': ctx, 'objects': n, 'traced': tracemalloc.get_traced_memory()[0]}
+
+def run_workload(w, n):
+    later = {a: v for a, v in w['cells'].items() if v == ''}
+    model = ModelCompiler().read_and_parse_dict({a: v for a, v in w['cells'].items() if a not in later})
+    for a, v in later.items():
+        model.set_cell_value(a, v)
+    ev = Evaluator(model)
+    cells, sets = w['evaluate'], w.get('sets', [])
+    outcomes = {}
+    state = {'round': 0, 'calls': 0}
+    period = 1
+    for _, values in sets:
+        period = period * len(values) // math.gcd(period, len(values))
+    def rounds(k):
+        for _ in range(k):
+            i = state['round']; state['round'] += 1
+            for addr, values in sets:
+                ev.set_cell_value(addr, values[i % len(values)])
+            for c in cells:
+                try:
+                    r = ('value', repr(ev.evaluate(c)))
+                except Exception as exc:
+                    r = ('raised', type(exc).__name__ + ':' + str(exc)[:40])
+                state['calls'] += 1
+                outcomes.setdefault((c, i % period), set()).add(r)
+    per = max(1, n // (2 * len(cells)))
+    rounds(max(4, min(40, per // 4)))            # warm-up: caches of inspect / re / dateutil fill here
+    t0 = time.time()
+    m0 = measure(); rounds(per); m1 = measure(); rounds(per); m2 = measure()
+    kinds = {}
+    for (c, ph), rs in outcomes.items():
+        for kind, _ in rs:
+            kinds[kind] = kinds.get(kind, 0) + 1
+    return {'name': w['name'], 'm0': m0, 'm1': m1, 'm2': m2, 'calls': state['calls'], 'rounds': state['round'],
+            'cells': len(cells), 'seconds': time.time() - t0, 'outcome_kinds': kinds,
+            'nondeterministic': sorted(c for (c, ph), rs in outcomes.items() if len(rs) != 1)}
+
 tracemalloc.start()
-m0 = measure(); run(n // 2); m1 = measure(); run(n // 2); m2 = measure()
-print(json.dumps({'m0': m0, 'm1': m1, 'm2': m2, 'seconds': time.time() - t0, 'n': n,
-                  'cells': len(model.cells), 'distinct_values': {c: len(s) for c, s in vals.items()}}))
-'''
+out = []
+for w in job['workloads']:
+    out.append(run_workload(w, job['n_per_workload']))
+    gc.collect()
+print(json.dumps(out))
+"""
 
 SLACK = {'contexts': 4, 'objects': 200, 'traced': 256 * 1024}
 
+# every formula kind is evaluated in every round: error literals into aggregates and operators, an error cell
+# inside ranges consumed by SUM / MAX / AND, text concatenation, IF / AND / OR, COUNTIF / MATCH / VLOOKUP, date
+# and text functions, a failing cell (unknown function) and a cycle report under try/except, constants, an
+# unknown address, a cross-sheet reference, set_cell_value between the evaluations
+MIX_WORKLOAD = {
+    'name': 'broad mix',
+    'cells': {
+        'Sheet1!A1': 1, 'Sheet1!A2': 2, 'Sheet1!A3': '=#N/A', 'Sheet1!A4': 'x', 'Sheet1!A5': 3.5,
+        'Sheet1!D1': 1, 'Sheet1!E1': 'one', 'Sheet1!D2': 2, 'Sheet1!E2': 'two',
+        'Sheet1!B1': '=SUM(A1,#REF!,A2)', 'Sheet1!B2': '=A1+#REF!', 'Sheet1!B3': '=MAX(#N/A,A1)',
+        'Sheet1!B4': '=SUM(A1:A3)', 'Sheet1!B5': '=MAX(A1:A3)', 'Sheet1!B6': '=AND(A1:A3)',
+        'Sheet1!B7': '=A4&"-"&A1', 'Sheet1!B8': '=IF(A1<2,B7,A2)', 'Sheet1!B9': '=OR(A1>5,A2>1)',
+        'Sheet1!B10': '=COUNTIF(A1:A2,">1")', 'Sheet1!B11': '=MATCH(2,D1:D2,0)',
+        'Sheet1!B12': '=VLOOKUP(2,D1:E2,2,FALSE)', 'Sheet1!B13': '=YEAR(DATE(2020,A1,A2))',
+        'Sheet1!B14': '=LEFT(A4&"abc",2)&MID("hello",1,A2)', 'Sheet1!B15': '=LEN(B14)+A5', 'Sheet1!B16': '=UPPER(A4)',
+        'Sheet1!B17': '=NOSUCHFN(A1)', 'Sheet1!B18': '=B19+1', 'Sheet1!B19': '=B18+1', 'Sheet1!B20': '=AVERAGE(A1:A3)',
+        'Sheet1!B21': '=MIN(A1:A2)/A2', 'Sheet1!B22': '=1/0', 'Sheet1!B23': '=IF(ISERROR(B22),"e",1)',
+        'Sheet1!B24': '=ROUND(A5*A2,1)', 'Sheet1!B25': '=SUM(A1:A2)*2', 'Sheet2!A1': 10, 'Sheet2!B25': '=SUM(A1:A2)*2',
+        'Sheet2!C1': '=Sheet1!B25+B25', 'Sheet1!B26': '=CONCATENATE(A4,"z")', 'Sheet1!B27': '=B17+1',
+        'Sheet1!B28': '=AND(A1,#VALUE!)', 'Sheet1!B29': '=SUM(A1:A2,B22)'},
+    'evaluate': ['Sheet1!B%d' % i for i in range(1, 30)] + ['Sheet2!B25', 'Sheet2!C1', 'Sheet1!A1', 'Sheet1!A3',
+                                                            'Sheet1!Z9'],
+    'sets': [['Sheet1!A1', [1, 4]], ['Sheet1!A4', ['x', 'yy']], ['Sheet2!A1', [10, 20, 30]]],
+}
+PLAIN_WORKLOAD = {
+    'name': 'plain chain, range, lazy IF (one evaluator, no sets)',
+    'cells': {'Sheet1!A1': 1, 'Sheet1!A2': 2, 'Sheet1!B1': '=A1+1', 'Sheet1!C1': '=B1*2+A2',
+              'Sheet1!D1': '=SUM(A1:A2)+C1', 'Sheet2!A1': '=Sheet1!C1-Sheet1!A1', 'Sheet1!E1': '=IF(A1<2,B1,D1)'},
+    'evaluate': ['Sheet1!C1', 'Sheet2!A1', 'Sheet1!A1', 'Sheet1!D1', 'Sheet1!B1', 'Sheet1!E1', 'Sheet1!Z9'],
+    'sets': [],
+}
 
-def start_memory_child(n):
+
+def memory_workloads():
+    """the built-in workloads plus the named ones of corpus/C05 (always part of the memory run)"""
+    ws = [PLAIN_WORKLOAD, MIX_WORKLOAD]
+    cdir = common.CORPUS / 'C05'
+    if cdir.exists():
+        for p in sorted(cdir.glob('mem-*.json')):
+            w = json.loads(p.read_text())['memory_workload']
+            w.setdefault('sets', [])
+            ws.append(w)
+    return ws
+
+
+def start_memory_child(n, workloads=None):
     env = dict(os.environ)
     env['PYTHONPATH'] = str(common.REPO)
-    return subprocess.Popen(['/venv/bin/python', '-c', MEM_SCRIPT, str(n)], stdout=subprocess.PIPE,
+    ws = workloads if workloads is not None else memory_workloads()
+    proc = subprocess.Popen(['/venv/bin/python', '-c', MEM_SCRIPT], stdin=subprocess.PIPE, stdout=subprocess.PIPE,
                             stderr=subprocess.PIPE, text=True, env=env, cwd='/tmp')
+    proc.stdin.write(json.dumps({'n_per_workload': max(400, n // len(ws)), 'workloads': ws}))
+    proc.stdin.close()
+    proc.stdin = None
+    proc.c05_workloads = ws
+    return proc
 
 
 def finish_memory_child(proc, res, n, timeout):
@@ -104,27 +183,33 @@ def finish_memory_child(proc, res, n, timeout):
         raise RuntimeError(f'memory child process did not finish {n} evaluations within {timeout}s')
     if proc.returncode != 0:
         raise RuntimeError(f'memory child process failed (rc={proc.returncode}): {err[-1500:]}')
-    m = json.loads(out.strip().splitlines()[-1])
-    first = {k: m['m1'][k] - m['m0'][k] for k in SLACK}
-    second = {k: m['m2'][k] - m['m1'][k] for k in SLACK}
-    res.extra['memory'] = {'evaluations': n, 'before': m['m0'], 'middle': m['m1'], 'end': m['m2'],
-                           'growth_first_half': first, 'growth_second_half': second, 'slack': SLACK,
-                           'seconds': round(m['seconds'], 1)}
-    res.evaluations += 1
-    res.count('memory run: evaluate calls', n)
-    over = {k: second[k] for k in SLACK if second[k] > SLACK[k]}
-    if over:
-        res.violations.append({
-            'what': 'repeated evaluation of the same cells accumulates memory (growth over the second half of the run)',
-            'input': {'evaluations': n, 'workbook': 'MEM_SCRIPT of harness/props/c05.py'},
-            'expected': {'growth_second_half <=': SLACK}, 'got': {'growth_second_half': second,
-                                                                   'growth_first_half': first}})
-    nondet = {c: k for c, k in m['distinct_values'].items() if k != 1}
-    if nondet:
-        res.violations.append({'what': 'the same cell evaluated repeatedly returned different values',
-                               'input': {'evaluations': n}, 'expected': 'one value per cell', 'got': nondet})
-    else:
-        res.nontrivial.add(f'memory:{n}')
+    reports = json.loads(out.strip().splitlines()[-1])
+    res.extra['memory'] = {'slack': SLACK, 'workloads': []}
+    for w, m in zip(proc.c05_workloads, reports):
+        first = {k: m['m1'][k] - m['m0'][k] for k in SLACK}
+        second = {k: m['m2'][k] - m['m1'][k] for k in SLACK}
+        res.extra['memory']['workloads'].append({
+            'name': m['name'], 'evaluate_calls': m['calls'], 'rounds': m['rounds'], 'cells_per_round': m['cells'],
+            'before': m['m0'], 'middle': m['m1'], 'end': m['m2'], 'growth_first_half': first,
+            'growth_second_half': second, 'outcome_kinds': m['outcome_kinds'], 'seconds': round(m['seconds'], 1)})
+        res.evaluations += 1
+        res.count('memory run: evaluate calls', m['calls'])
+        res.count('memory run: workloads')
+        over = {k: second[k] for k in SLACK if second[k] > SLACK[k]}
+        half_calls = max(1, (m['calls'] // 2))
+        if over:
+            res.violations.append({
+                'what': 'repeated evaluation of the same cells accumulates memory (growth over the second half of the run)',
+                'input': {'evaluations': n, 'memory_workload': w},
+                'expected': {'growth_second_half <=': SLACK},
+                'got': {'workload': m['name'], 'growth_second_half': second, 'growth_first_half': first,
+                        'per_evaluate_call': {k: round(second[k] / half_calls, 2) for k in SLACK}}})
+        if m['nondeterministic']:
+            res.violations.append({'what': 'the same cell evaluated repeatedly (same inputs) returned different values',
+                                   'input': {'evaluations': n, 'memory_workload': w}, 'expected': 'one value per cell',
+                                   'got': m['nondeterministic'][:10]})
+        if not over and not m['nondeterministic']:
+            res.nontrivial.add('memory:' + m['name'])
 
 
 # ------------------------------------------------------------------------------------------ schedules
@@ -266,9 +351,16 @@ RAW_WITNESS = {'Sheet1!A1': True, 'Sheet1!A2': 1, 'Sheet1!A3': 0, 'Sheet1!A4': F
 RAW_WITNESS2 = {'Sheet1!A1': 1.0, 'Sheet1!A2': 1, 'Sheet1!A3': True, 'Sheet1!A4': 0.0, 'Sheet1!A5': 0,
                 'Sheet1!B1': '=A1&"|"', 'Sheet1!B2': '=A2&"|"', 'Sheet1!B3': '=A3=A2', 'Sheet1!B4': '=A4&"|"',
                 'Sheet1!B5': '=A5&"|"', 'Sheet1!C1': '=COUNT(A1:A5)', 'Sheet1!C2': '=ISTEXT(A3)'}
+# the same unqualified formula texts ($ references, ranges, AND / OR over ranges) on three sheets over different data
+RAW_MIRROR = {}
+for _sheet, (_a1, _a2) in {'Sheet1': (10, 0), 'Sheet2': (100, 5), 'My Sheet': (7, 1)}.items():
+    RAW_MIRROR.update({f'{_sheet}!A1': _a1, f'{_sheet}!A2': _a2, f'{_sheet}!B1': '=$A$1*2', f'{_sheet}!B2': '=AND(A1:A2)',
+                       f'{_sheet}!B3': '=SUM($A$1:A2)+1', f'{_sheet}!B4': '=OR(A2:A2,A1>50)', f'{_sheet}!B5': '=A$1&"|"&$A2'})
+RAW_MIRROR['Sheet2!C1'] = "='My Sheet'!B1+B1+Sheet1!B1"
 OBSERVERS = ['=ISNUMBER({a})', '=ISTEXT({a})', '={a}&"|"', '={a}={b}', '=IF({a},"y","n")', '={a}+0', '=ISBLANK({a})',
              '=NOT({a})', '=EXACT({a},{b})', '=COUNT({lo}:{hi})', '=SUM({lo}:{hi})', '=COUNTA({lo}:{hi})+0',
-             '=ISNUMBER({a})&ISTEXT({b})', '={a}<{b}', '=ISERROR({a}/{b})']
+             '=ISNUMBER({a})&ISTEXT({b})', '={a}<{b}', '=ISERROR({a}/{b})', '=$A$1&"|"', '=SUM($A$1:{a})',
+             '=AND({lo}:{hi})', '=OR({lo}:{hi})', '=$A1={a}']
 
 
 def raw_is_formula(v):
@@ -291,6 +383,19 @@ def gen_raw(rng):
     if rng.random() < 0.4:      # an observer of observers
         row += 1
         d[f'Sheet1!B{row}'] = f'=B1&"/"&B{rng.randint(1, row - 1)}'
+    if rng.random() < 0.45:
+        # the same formula texts on one or two more sheets, over different constants
+        base = dict(d)
+        for dst in rng.sample(['Sheet2', 'My Sheet', "O'Brien"], rng.randint(1, 2)):
+            for a, v in base.items():
+                coord = a.split('!')[1]
+                if raw_is_formula(v):
+                    d[f'{dst}!{coord}'] = v
+                else:
+                    d[f'{dst}!{coord}'] = rng.choice(c04.TWIN_VALUES + [2, 3, 'a', 'b', 10])
+        if rng.random() < 0.5:
+            d['Sheet1!C9'] = '=B1&"+"&Sheet2!B1' if 'Sheet2!B1' in d else "=B1&\"+\"&'My Sheet'!B1" \
+                if 'My Sheet!B1' in d else '=B1'
     return d
 
 
@@ -378,16 +483,23 @@ def raw_twins(d):
 def raw_nontrivial(d, sched):
     """one evaluator evaluates formulas that read both members of a twin pair"""
     import re
+    texts = {}
+    for op in sched:
+        if op[0] == 'e' and raw_is_formula(d.get(op[2])):
+            texts.setdefault(d[op[2]], set()).add(op[2].split('!')[0])
+    if any(len(v) > 1 for v in texts.values()):
+        return True             # the same formula text evaluated on two sheets
     reads = {}
     for a, v in d.items():
         if raw_is_formula(v):
             rs = set()
-            for m in re.finditer(r'([A-Z])(\d+)(?::([A-Z])(\d+))?', v):
+            sheet = a.split('!')[0]
+            for m in re.finditer(r'\$?([A-Z])\$?(\d+)(?::\$?([A-Z])\$?(\d+))?', v):
                 if m.group(3):
                     for r in range(int(m.group(2)), int(m.group(4)) + 1):
-                        rs.add(f'Sheet1!{m.group(1)}{r}')
+                        rs.add(f'{sheet}!{m.group(1)}{r}')
                 else:
-                    rs.add(f'Sheet1!{m.group(1)}{m.group(2)}')
+                    rs.add(f'{sheet}!{m.group(1)}{m.group(2)}')
             reads[a] = rs
     per = {}
     for op in sched:
@@ -468,9 +580,18 @@ def precedents(wb):
 
 
 def is_nontrivial(wb, sched, trans):
-    """some formula cell is evaluated again after one of its precedents or dependents was evaluated"""
+    """some formula cell is evaluated again after one of its precedents or dependents was evaluated, or two cells
+    with the same formula text on different sheets are evaluated"""
     names = wb.get('names', {})
     seq = [names.get(op[2], op[2]) for op in sched if op[0] == 'e']
+    if wb.get('mirrored'):
+        texts = {}
+        for a in seq:
+            c = wb['cells'].get(a)
+            if isinstance(c, tuple) and c and c[0] == 'f':
+                texts.setdefault(evalwire.formula_text(c[1], a.split('!')[0]), set()).add(a.split('!')[0])
+        if any(len(v) > 1 for v in texts.values()):
+            return True
     for i, a in enumerate(seq):
         if a not in trans:
             continue
@@ -674,7 +795,8 @@ def run(ctx):
                                                               [tuple(x) for x in inp['schedule']])])], 'replay')
         elif isinstance(inp, dict) and 'evaluations' in inp:
             n = int(inp['evaluations'])
-            finish_memory_child(start_memory_child(n), res, n, 3600)
+            ws = [inp['memory_workload']] if 'memory_workload' in inp else None
+            finish_memory_child(start_memory_child(n if ws is None else n // len(memory_workloads()), ws), res, n, 3600)
         else:
             res.notes.append('the replay file holds no failing input of C05 (nothing re-run)')
         res.rule = 'replay of one stored input'
@@ -691,6 +813,8 @@ def run(ctx):
         if cdir.exists():
             for pth in sorted(cdir.glob('*.json')):
                 inp = json.loads(pth.read_text())
+                if 'memory_workload' in inp:
+                    continue                      # a named workload of the memory run (memory_workloads())
                 inp = inp.get('input', inp)
                 if 'raw_workbook' in inp:
                     run_raw_batch(res, None, [(inp['raw_workbook'], [(int(inp.get('evaluators', 1)),
@@ -737,12 +861,14 @@ def run(ctx):
         run_batch(ctx, res, pool, batches, 'random schedules')
         # 2b. typed constants: equal-but-differently-typed constants next to type-sensitive formulas
         batches = []
-        for d in (RAW_WITNESS, RAW_WITNESS2):
+        for d in (RAW_WITNESS, RAW_WITNESS2, RAW_MIRROR):
             obsv = [a for a, v in d.items() if raw_is_formula(v)]
             hs = list(d)
             ks = []
             for j in (1, 2, 3):
-                for seq in itertools.product(obsv if j == 3 else hs, repeat=j):
+                if j == 3 and len(obsv) > 10:
+                    continue
+                for seq in itertools.product(obsv if j >= 2 and len(hs) > 14 or j == 3 else hs, repeat=j):
                     k = 1 + (len(ks) % 2)
                     ks.append((k, [('e', (i * len(ks)) % k, h) for i, h in enumerate(seq)]))
             for seq in itertools.permutations(obsv[:5], min(4, len(obsv))):
